@@ -90,6 +90,7 @@ type obs struct {
 	fshow           []string
 	cf              string
 	hash, nameHash  uint64
+	shards          [3]int // shard per shardCounts entry, from the real shard iterator (single-row batches only)
 }
 
 func (o *obs) line(sentTs, t0, t1 int64) string {
